@@ -18,6 +18,7 @@ Decided (structural necessary conditions; networkx's search itself is trusted):
  R6 group constraints: in a disjunction group the scan of a combination stops early only after a STRICT failure.
  R7 same request  : compare_reqs compares the same attribute of both requests (route lists and LOOSE/STRICT flags included).
  Ra alias mutation: a local that still names a list of another object (not copied) is never mutated in place.
+ Rn arg roles     : a variable named like a parameter of the callee is handed to that parameter (no exchanged roles).
 """
 import ast
 
@@ -368,6 +369,15 @@ def ra_alias(ctx):
     ctx.need('Ra.alias-mutation', 3)
 
 
+def rn_arg_roles(ctx):
+    """Rn: a variable named like a parameter of the callee is handed to that parameter (no exchanged roles such as
+    f(to_degree, from_degree) for def f(from_degree, to_degree)); calls to resolved package functions, canonical form"""
+    from .common import arg_roles_rule
+    from ..memo import scope_funcs
+    n = arg_roles_rule(ctx, 'Rn.arg-roles', scope_funcs(ctx.repo, 'C11'), 'source and destination / route roles would be exchanged')
+    ctx.check('Rn.arg-roles', 'argument / parameter name scan', True, 'C11|arg-roles-scan', '', f'{n} argument(s) named like another parameter judged')
+
+
 from ..memo import rule_for as _memo_rule
 
 RULES_MEMO = ('Rm.memo', _memo_rule('C11', 'a route computed for another request or topology would be returned'))
@@ -378,4 +388,4 @@ from ..presence import rule_for as _presence_rule
 RULES_PRESENCE = ('Rp.presence', _presence_rule('C11', 'a legal zero would be read as missing'))
 
 RULES = [('R1.metric', r1_metric), ('R2.outcomes', r2_outcomes), ('R3.reasons', r3_reasons), ('R4.route-lists', r4_route_lists),
-         ('R5.helpers', r5_helpers), RULES_MEMO, RULES_PRESENCE, ('R6.group-constraints', r6_group_constraints), ('R7.same-request', r7_same_request), ('Ra.alias-mutation', ra_alias)]
+         ('R5.helpers', r5_helpers), RULES_MEMO, RULES_PRESENCE, ('R6.group-constraints', r6_group_constraints), ('R7.same-request', r7_same_request), ('Ra.alias-mutation', ra_alias), ('Rn.arg-roles', rn_arg_roles)]
